@@ -225,6 +225,8 @@ pub fn coq_rows(rs: &[Vec<SqlValue>]) -> String {
 
 #[derive(Clone, Debug, PartialEq)]
 pub struct Snapshot {
+    /// Database::list_tables() (oracle only: the model has no table DDL)
+    pub listing: Vec<String>,
     pub tabs: Vec<(i64, Vec<Vec<SqlValue>>)>,
     pub cix: Vec<(i64, i64)>,
     pub uix: Vec<(i64, i64, usize, Vec<(Option<i64>, Vec<usize>)>)>,
@@ -286,7 +288,9 @@ pub fn observe(db: &mut Database) -> Snapshot {
             });
         }
     }
-    Snapshot { tabs, cix, uix, q }
+    let mut listing = db.list_tables();
+    listing.sort();
+    Snapshot { listing, tabs, cix, uix, q }
 }
 
 pub fn bag(rows: &[Vec<SqlValue>]) -> Vec<String> {
@@ -386,6 +390,17 @@ pub fn gen_int(r: &mut Rng) -> Lit {
 
 /// one literal row for table `t`; `plain` rows only use values the normaliser leaves alone
 pub fn gen_lit_row(r: &mut Rng, t: i64, g: &mut i64, plain: bool) -> Vec<Lit> {
+    if r.chance(1, 4) {
+        // a row from a small fixed family: identical rows (duplicates in every column) are frequent, so
+        // that "remove the FIRST row equal to the recorded one" is distinguishable from other choices
+        let k = *g / 6;
+        let mut row = vec![Lit::Int(1000 + k), Lit::Int(k % 4 + 1), Lit::Int((k / 2) % 4 + 1)];
+        if t == 0 {
+            row.push(Lit::Str("x".into()));
+            row.push(Lit::Str("abc".into()));
+        }
+        return row;
+    }
     *g += 1;
     let mut row = vec![Lit::Int(*g), gen_int(r), gen_int(r)];
     if t == 0 {
